@@ -36,9 +36,9 @@ MC_CFGS = {
 }
 SIM_CFGS = {
     'quick': [('BertE.sim.cfg', 16, 30), ('BertE.simsk.cfg', 12, 30), ('BertE.simnq.cfg', 8, 24),
-              ('BertE.sims.cfg', 12, 30)],
+              ('BertE.sims.cfg', 12, 30), ('BertE.simf.cfg', 12, 45)],
     'thorough': [('BertE.sim.cfg', 400, 40), ('BertE.simsk.cfg', 300, 40), ('BertE.simnq.cfg', 150, 30),
-                 ('BertE.sims.cfg', 300, 40)],
+                 ('BertE.sims.cfg', 300, 40), ('BertE.simf.cfg', 300, 60), ('BertE.simsa.cfg', 200, 40)],
 }
 
 
@@ -188,7 +188,8 @@ def _sysrun(tier, seed, log=print):
         log('[3/5] scripted families on the real code')
         scns = families.all_scenarios(seed, tier)
         if tier == 'quick':
-            scns = _sample(scns, rng, 100)
+            core = [x for x in scns if x.get('core')]
+            scns = core + _sample([x for x in scns if not x.get('core')], rng, 90)
         fam_outs = explore.run_scenarios(scns, scratch)
         log('      %d scenarios, %d with harness errors' % (len(fam_outs), sum(1 for o in fam_outs if o['error'])))
         log('[4/5] fault / third-party enumeration on the real code')
@@ -372,5 +373,5 @@ ALL_CLAUSES = ['C01.incl', 'C02.incl', 'C02.allornone', 'C02.recovery', 'C03.gre
                'C10.cmdonce', 'C10.fresh', 'C12.held.integrated', 'C12.held.merged',
                'C12.held.merged_after_queued', 'C12.nocomment', 'C12.lifted', 'C15.refuse.untouched',
                'C15.lossy.notrefused', 'C15.scope', 'C15.rebuild', 'C19.unique', 'C19.child',
-               'C19.decline.prs', 'C19.decline.refs', 'C19.merge.refs', 'C19.events', 'C20.refuse.untouched',
+               'C19.decline.prs', 'C19.decline.refs', 'C19.decline.leftover', 'C19.merge.refs', 'C19.events', 'C20.refuse.untouched',
                'C20.create', 'C20.delete', 'C20.queues.scope', 'C20.rebuild.resubmit']
